@@ -251,6 +251,45 @@ def run_random(spec, acc, api):
             acc.sample({'value': refval.canon(v), 'indent': indent})
 
 
+def failure_history(spec, acc, api):
+    """History with FAILED serialisations in between: a value that cannot be written (a non-finite number inside it, a container that
+    contains itself) is repaired in place and serialised again - the earlier failure leaves no trace, in compact and indented mode."""
+    lib, value_json = api
+    rnd = random.Random(spec['seed'] * 7919 + 151)
+    table = {}
+    for i in range(spec['n'] // 40 + 20):
+        v = rand_value(rnd, rnd.randint(1, 4))
+        if not isinstance(v, (list, dict)):
+            v = [v, {'k': v}]
+        # find a container inside v to poison
+        holder = v
+        while True:
+            inner = [x for x in (holder if isinstance(holder, list) else holder.values()) if isinstance(x, (list, dict))]
+            if not inner or rnd.random() < 0.4:
+                break
+            holder = rnd.choice(inner)
+        poison = rnd.choice(['nan', 'inf', 'cycle', 'cycle-outer'])
+        bad = float('nan') if poison == 'nan' else (float('inf') if poison == 'inf' else (holder if poison == 'cycle' else v))
+        if isinstance(holder, list):
+            holder.append(bad)
+        else:
+            holder['$poison'] = bad
+        for indent in (None, 2):
+            try:
+                lib['jsonStringify']([v] if indent is None else [v, float(indent)], None)
+                value_json(v, indent)
+            except Exception:  # pylint: disable=broad-except
+                pass  # failing here is fine (what a failed serialisation returns is not this property)
+            acc.count('failed_serialisations_before_repair')
+        if isinstance(holder, list):
+            holder.pop()
+        else:
+            del holder['$poison']
+        for indent in (None, 2, None):
+            check_value(v, indent, acc, api, table, True)
+    acc.cover('history_kinds', 'failed-then-repaired')
+
+
 def state_check(spec, acc, api):
     """No state between calls: serialise + parse the same values in a fresh process in reversed order."""
     from .. import core
@@ -281,6 +320,8 @@ def run_shard(spec, acc):
         run_random(spec, acc, api)
         if spec['shard'] == 0:
             state_check(spec, acc, api)
+        if spec['shard'] in (1, 2):
+            failure_history(spec, acc, api)
 
 
 def replay(spec, acc):
